@@ -21,7 +21,15 @@ def main():
         meta = json.load(open(os.path.join(d, "meta.json")))
         rc, o = sh("git -C /repo apply %s" % os.path.join(d, "patch.diff"))
         if rc != 0:
-            print(sid, "patch does not apply:", o[:200]); continue
+            # /repo moved on (later fix commits): three-way merge, then store the rebased patch
+            rc, o = sh("git -C /repo apply --3way %s && git -C /repo reset -q" % os.path.join(d, "patch.diff"))
+            if rc != 0:
+                sh("git -C /repo reset -q --hard")
+                print(sid, "patch does not apply:", o[:200]); continue
+            rc2, newdiff = sh("git -C /repo diff -- src Cargo.toml")
+            if rc2 == 0 and newdiff.strip():
+                open(os.path.join(d, "patch.diff"), "w").write(newdiff)
+                meta["patch_rebased_onto"] = sh("git -C /repo rev-parse --short HEAD")[1].strip()
         results = {}
         try:
             for cid in ALL:
